@@ -194,6 +194,11 @@ def check_c04(tier, seed):
     finally:
         TM.close()
     R.coverage["type_and_name_cases"] = ty_cases
+    from . import xpkg
+    try:
+        xpkg.judge(R, xpkg.xpkg_stream(tier, seed), {"C04"})
+    finally:
+        xpkg.close_streams()
     diffs = emission_diffs(S)
     R.oblige("correspondence: text of the emitted functions = model emission (KV.planDumpE) on %d declarations" % len(S["ok"]), not diffs,
              "%d differ; first: %s" % (len(diffs), [d[1:] for d in diffs[:1]]))
